@@ -32,7 +32,7 @@ CHECKS = {
    text="All gated callbacks of a multi-branch step must arrive while every gate is held closed (a branch waiting for a sibling could not), on distinct non-caller threads with the documented names; single-active steps run on the calling thread; the caller is observed not to continue before the last release. The only wall-clock element is the rendezvous deadline (10 s, confirmed once with 20 s) on the failing path."),
  "C09": dict(level="exploration", engine="R", design="6/C09",
    technique="property-based testing under a deterministic executor: manual polling with a flag waker inside a current_thread tokio runtime, gate futures opened in systematically enumerated and randomised orders with batches and spurious polls",
-   text="Laziness (nothing logged before the first poll, nor when dropped unpolled), step-internal concurrency (every active branch reaches its first pending point; an opened branch reaches its next one while siblings are pending), wake-up propagation and completion with the model's value are checked for every generated wake-up order; a hang shows deterministically as 'all gates open, root pending, not notified'. Multi-threaded tokio schedulers are not explored."),
+   text="Laziness (nothing logged before the first poll, nor when dropped unpolled), step-internal concurrency (every active branch reaches its first pending point; an opened branch reaches its next one while siblings are pending), wake-up propagation and completion with the model's value are checked for every generated wake-up order; a hang shows deterministically as 'all gates open, root pending, not notified'. The future is also built and dropped outside any runtime; a quarter of the task-spawning programs use a sequentially awaiting custom joiner (the tasks must run regardless). Multi-threaded tokio schedulers are not explored."),
  "C10": dict(level="exploration", engine="R", design="6/C10",
    technique="property-based testing: event multiset and per-branch callback order of generated programs vs the reference model, clone- and drop-counting tokens",
    text="Every evaluation of a user expression is an event; the multiset of events of a run must equal the model's (exactly once / exactly as often as the method calls it), clone counter 0, no live token after the result is dropped. Stage 2 (typed chains against the documented chain): iterator callbacks per element, fold / try_fold operands, clone- and drop-counted `Ck` values - equal event multisets, equal clone counts, nothing left alive. Stage 3 (library level, engine L): generated structures over all 23 operator spellings in which every user expression carries a unique marker; each marker must occur exactly once in the expansion."),
@@ -41,7 +41,7 @@ CHECKS = {
    text="Capture phase of every executed step must be exactly the model's sequence (branch-then-position), after all earlier-step events and before all other events of its own step, also for captures inside nested wrappers and in thread/task-spawning macros. Stage 2 (typed chains): block operands on all 14 expression-operand operators incl. both operands of `^@` / `?^@`; per branch the captures must be evaluated once each in written order."),
  "C12": dict(level="exploration", engine="R", design="6/C12",
    technique="property-based testing: snapshots of let-names taken inside generated block captures vs the reference model; result compared with the name-free model",
-   text="Random subsets of branches are named, captures of later steps snapshot random names (also of finished branches); every snapshot must equal the named branch's latest step result and the macro's value must be what the model (which ignores names) predicts."),
+   text="Random subsets of branches are named, captures of later steps snapshot random names (also of finished branches); every snapshot must equal the named branch's latest step result and the macro's value must be what the model (which ignores names) predicts; `let mut` names are borrowed mutably and changed in place. Stage 2 (typed chains, metamorphic): 85 % of the branches carry a name on the macro side only - also in front of initial values that bind weaker than a method call - and must equal the unnamed documented chain."),
  "C13": dict(level="exploration", engine="R", design="6/C13",
    technique="property-based testing with fault enumeration: handler-call events and results of generated (macro x handler kind x position) programs under enumerated failure plans",
    text="Legal handler kinds at every position among 1-5 branches under all 12 macro names, failure plans enumerated; handler called exactly once iff documented, with the values in branch order (argument hash), async handler futures run. The same command then runs the library-level half (engine L): every (configuration x handler kind x position) is enumerated - wrong kinds must be rejected, legal ones accepted - and every pair of handlers, plus generated structures with an inserted second handler, must be rejected by the parser."),
@@ -56,7 +56,7 @@ CHECKS = {
    text="Each input is lexed, parsed and expanded under catch_unwind with one of the 8 configurations; the outcome must be a valid expression, a syn error or one of the generator's two configuration messages, and fault inputs must be rejected. 420 000 inputs in the quick tier, a third of which reach the generator; the thorough tier adds a coverage-guided libFuzzer stage (12 workers x 300 s) over a token-soup decoder."),
  "C20": dict(level="exploration", engine="L", design="6/C20",
    technique="model-based property testing over histories (proptest): sequences of expansions over a pool of inputs x configurations, replayed sequentially and concurrently on fresh threads; model = first output per (input, config)",
-   text="A history is a pool of generated inputs, a sequence of (input, configuration) expansions with repetition, and a thread count; every later or concurrent expansion must be byte-identical to the first. Hash-order or thread-local state would show because each history constructs fresh hash states and threads."),
+   text="A history is a pool of generated inputs, a sequence of (input, configuration) expansions with repetition, and a thread count; every later or concurrent expansion must be byte-identical to the first. Hash-order or thread-local state would show because each history constructs fresh hash states and threads; every fourth history is also expanded in two fresh child processes in forward and reverse order (state left behind by the first expansion of a process)."),
  "C19": dict(level="exploration", engine="R", design="6/C19",
    technique="property-based testing: counting global allocator around the macro expression of generated join! / try_join! programs (allocation claim); differential compile-and-run of typed chains over !Send / move-only values and caller-stack borrows (bounds claim)",
    text="Stage 1: generated sequential programs whose user code does not allocate (preallocated event log) are evaluated under enumerated failure plans; the evaluating thread's allocation counter must not move across the macro expression. Stage 2: typed chains under the four non-spawning macros with values that are neither Send nor Clone, move-only values, shared and mutable borrows of the caller's locals, up to 7 branches; the macro side must compile whenever the documented chain does and agree with it."),
